@@ -7,6 +7,7 @@ def parseOp (s : String) : Option SOp :=
   match s.splitOn ":" with
   | ["add", x] => x.toNat?.map (fun n => SOp.change (.add n))
   | ["del", x] => x.toNat?.map (fun n => SOp.change (.del n))
+  | ["sql", x] => x.toNat?.map (fun n => SOp.rawSql (.add n))
   | ["flush"] => some .flush
   | ["commit"] => some .commit
   | ["query"] => some .query
